@@ -14,6 +14,51 @@ from .. import hd, astq
 from ..hd import HZ, expect, expect_support, events_to_obligations
 from ..program import rel
 
+def complex_kept(prog, run, mfi):
+    """R-complex: the per-setup mode shapes reach merge_mode_shapes as they are stored in the results (complex for SSI / pLSCF), and the
+    merged array is complex: no cast to a real dtype, no `.real`, on the way in or inside"""
+    run.rule("R-complex", "mode shapes are handed to merge_mode_shapes and merged without a cast to a real dtype (complex shapes keep their imaginary part)", 2)
+    f = rel(prog.mods[mfi.mod].path)
+    merge = prog.func(MERGE)
+    first = astq.params_of(merge.node)[0][0]
+    recs = astq.forwarded_args(prog, mfi, merge.qual, depth=2)
+    if not recs:
+        run.ob("R-complex", mfi.qual, "call of merge_mode_shapes", None, "merge_results does not call merge_mode_shapes", file=f)
+    for rec in recs:
+        a = rec["args"].get(first)
+        if a is None:
+            run.ob("R-complex", mfi.qual, "shapes handed to merge_mode_shapes", None, "argument not expressible in merge_results", file=f, node=rec["outer_call"])
+            continue
+        exprs = [a]
+        if isinstance(a, ast.Name):
+            els = astq.list_elements(rec["holder"], a.id)
+            exprs = [astq.expr_at(rec["holder"], el.at, el.elt) for el in els] or [a]
+        casts = [t for e in exprs for n, t in astq.real_casts(e)]
+        txt = "; ".join(astq.src(e, 60) for e in exprs)
+        reads_phi = any(isinstance(n, ast.Attribute) and n.attr == "Phi" for e in exprs for n in ast.walk(e)) or any(isinstance(n, ast.Constant) and n.value == "Phi" for e in exprs for n in ast.walk(e))
+        ok = False if casts else (True if reads_phi else None)
+        run.ob("R-complex", mfi.qual, "shapes handed to merge_mode_shapes", ok,
+               f"elements `{txt}`" + (f": cast to a real type by {casts[0]} - complex mode shapes lose their imaginary part" if casts else ""), witness=casts[0] if casts else txt[:80], file=f, node=rec["outer_call"])
+    # inside: allocation of the merged array / values stored into it
+    fm = rel(prog.mods[merge.mod].path)
+    rets = [n for n in ast.walk(merge.node) if isinstance(n, ast.Return) and n.value is not None]
+    bad = []
+    seen_alloc = False
+    for r in rets:
+        x = astq.expr_at(merge, r, r.value)
+        for c in ast.walk(x):
+            if isinstance(c, ast.Call) and astq.callee_name(prog, merge, c) in ("numpy.zeros", "numpy.empty", "numpy.full", "numpy.ones"):
+                seen_alloc = True
+        casts = astq.real_casts(x)
+        # an allocation without dtype is float64: stores into it drop the imaginary part unless it is converted to complex
+        txt = astq.src(x, 200).replace(" ", "")
+        alloc_real = seen_alloc and not ("complex" in txt)
+        if casts or alloc_real:
+            bad.append(casts[0][1] if casts else f"`{astq.src(x, 60)}` allocates a real array")
+    run.ob("R-complex", merge.qual, "merged array is complex (or takes the dtype of its inputs)", not bad,
+           "no real cast on the returned array" if not bad else bad[0] + ": complex mode shapes lose their imaginary part", witness=bad[0] if bad else "", file=fm, node=rets[-1] if rets else merge.node)
+
+
 MERGE = "functions.gen.merge_mode_shapes"
 POSER = "setup.multi.MultiSetup_PoSER"
 
@@ -69,6 +114,7 @@ def check(prog, run):
     events_to_obligations(run, prog, "O-stat", "merge_results")
     run.trusted |= set(CTX.used)
     stat_structure(prog, run, mr.fi)
+    complex_kept(prog, run, mr.fi)
     try:
         from .. import seqsig
     except ImportError:
